@@ -128,10 +128,10 @@ Definition req_eff (e : effect) (a : astate) : bool :=
   | ENewStudy => R && f_regmiss a && negb L && no_debt a
   | ERegister => R && d_reg a && f_regmiss a
   | EGetLatest => negb (d_lat a)
-  | EAppend => L && f_idfresh a && f_room a && negb (d_ip a) && negb (d_lat a)
+  | EAppend => L && f_idfresh a && f_room a && negb (d_ip a) && negb (d_lat a) && f_latdone a
   | EIncPend => d_ip a
   | ESetLatest => L && d_lat a && f_latdone a
-  | ESetCur => negb (cur_debts a)
+  | ESetCur => negb (cur_debts a) && f_mine a
   | ESetCompleted => L && f_curpend a && negb (cur_debts a)
   | ESetFinalLast => f_own a && f_hasmeas a && (d_best a || inf_is (f_inf a) true) && negb (f_better a)
   | ESetFinalZero => f_own a && (d_best a || inf_is (f_inf a) true) && negb (f_better a)
